@@ -4,6 +4,10 @@ mod c02x;
 mod c04;
 mod c05;
 mod c05bt;
+mod c05s;
+mod t3;
+mod physrec;
+mod mtphys;
 mod c06;
 mod c08;
 mod c09;
@@ -48,6 +52,10 @@ fn dispatch(cmd: &str) -> Option<RunFn> {
 		"c20" => c20::run,
 		"c05" => c05::run,
 		"c05bt" => c05bt::run,
+		"c05s" => c05s::run,
+		"t3" => t3::run,
+		"physrec" => physrec::run,
+		"mtphys" => mtphys::run,
 		"c04" => c04::run,
 		"c09" => c09::run,
 		"c15" => c15::run,
